@@ -592,9 +592,121 @@ def roundtrips(rep0, tier, seed):
                 got = j.properties.get(mkey, '<missing>') if outcome == 'Ok' else 'raised ' + outcome
                 rep.failure('C07:%s:uncarried-value-%s-%s' % (fmt, cls, 'changed' if outcome == 'Ok' else outcome.replace('other:', '')), '%s: value %r neither refused with a pyGAPS error nor preserved: %r' % (fmt, txt, got),
                             {'fmt': fmt, 'spec': c06_js(spec), 'target': 'file' if fmt == 'aif' else 'string', 'kind': 'malformed'})
+    directed_named_and_labels(rep, seed, hist)
     rep0.cov['evaluations'] += sum(v for k, v in hist.items())
     rep0.cov['failing_cases_per_tag'] = dict(sorted(rep.seen.items()))
     return hist, nontrivial
+
+
+# ------------------------------------------------------------------ directed: named metadata fields of the formats, row labels of the data frame
+def named_fields():
+    """metadata keys for which a format has a NAMED tag / field of its own (read from the implementation's tables: the AIF tag table;
+    the named Excel fields are the core fields every isotherm carries) -> {key: declared type}"""
+    from pygaps.parsing import aif
+    core = ('temperature', 'adsorbate', 'material')
+    return {v['text']: v['type'] for v in aif._META_DICT.values() if v['text'] not in core}
+
+
+NAMED_VALUES = {float: [12.25, 393.15, 0.0431], str: ['tok1', 'mg', 'ASAP-2020', '2024-05-17']}
+LABEL_KINDS = ('gap', 'offset', 'shuffled', 'text', 'negative')
+
+
+def row_labels(kind, n, r):
+    if kind == 'gap':         # what is left of 0..m-1 after rows were filtered out
+        keep = sorted(r.sample(range(n + 3), n))
+        return keep if keep != list(range(n)) else [x + (2 if x >= n // 2 else 0) for x in keep]
+    if kind == 'offset':      # a slice
+        return list(range(3, 3 + n))
+    if kind == 'shuffled':
+        lab = list(range(n))
+        r.shuffle(lab)
+        return lab
+    if kind == 'negative':
+        return list(range(-n, 0))
+    return ['r%d' % k for k in range(n)]
+
+
+def directed_named_and_labels(rep, seed, hist):
+    """(1) every metadata key a format has a named field for, alone and all together, typed as the format declares, on every class;
+    (2) point isotherms whose frame has non-default row labels (gaps, offset, shuffled, negative, text), columns compared value by value.
+    Own random streams (the main stream of the round trips is not consumed)."""
+    named = named_fields()
+    for fmt in ('csv', 'aif', 'xl'):
+        r = random.Random('c07-named/%d/%s' % (seed, fmt))
+        combos = [[k] for k in named] + [list(named)] * 3
+        base = [s for s in gen_specs(r, fmt, 3 * len(combos), special=0.0)]
+        for k, keys in enumerate(combos):
+            for cls in ('base', 'point', 'model'):
+                spec = next((s for s in base if s['cls'] == cls), None)
+                if spec is None:
+                    continue
+                base.remove(spec)
+                spec['meta'] = {kk: vv for kk, vv in list(spec['meta'].items())[:2] if not isinstance(vv, list) and kk not in named}
+                if fmt != 'xl':
+                    spec['meta'] = {kk: vv for kk, vv in spec['meta'].items() if not (isinstance(vv, int) and not isinstance(vv, bool) and vv < 0)}
+                for key in keys:
+                    spec['meta'][key] = r.choice(NAMED_VALUES[named[key]])
+                if spec['temperature'] == 0:
+                    spec['temperature'] = 77
+                if cls == 'point':
+                    spec['data']['branch'] = 'guess'
+                    spec['data']['cols'] = {c: v for c, v in spec['data']['cols'].items() if v and isinstance(v[0], float) and all(x == x for x in v)}
+                try:
+                    iso = cc.build(spec)
+                except Exception:  # noqa
+                    continue
+                o0 = cc.observe(iso)
+                target = 'file' if (fmt != 'csv' or k % 2) else 'string'
+                exp, imp, j, msg = do_roundtrip(fmt, iso, 7000 + k, target)
+                hist[fmt + '/directed-named-fields'] = hist.get(fmt + '/directed-named-fields', 0) + 1
+                rp = {'fmt': fmt, 'spec': c06_js(spec), 'target': target}
+                if exp != 'Ok' or imp != 'Ok':
+                    kind = 'export-raised' if exp != 'Ok' else 'import-raised'
+                    rep.failure(classify(fmt, spec, o0, None, kind, None, msg, exp, imp), '%s with the named fields %s: %s %s %s' % (fmt, keys, kind, exp if exp != 'Ok' else imp, msg), dict(rp, kind=kind))
+                    continue
+                o1 = cc.observe(j)
+                d = content_diff(o0, o1)
+                if d:
+                    if d[0] == 'metadata' and d[1] in named:
+                        tag = 'C07:unclassified:%s:named-field-not-carried:%s' % (fmt, d[1])
+                    else:
+                        tag = classify(fmt, spec, o0, o1, 'content', d, '', exp, imp)
+                    rep.failure(tag, '%s round trip of an isotherm carrying the named fields %s changed %s' % (fmt, keys, d), dict(rp, kind='content', detail=str(d)[:300]))
+        # row labels
+        r = random.Random('c07-labels/%d/%s' % (seed, fmt))
+        pts = [s for s in gen_specs(r, fmt, 60, special=0.0) if s['cls'] == 'point' and len(s['data']['p']) >= 3][:3 * len(LABEL_KINDS)]
+        for k, spec in enumerate(pts):
+            kind = LABEL_KINDS[k % len(LABEL_KINDS)]
+            d = spec['data']
+            d['via'] = 'frame'
+            d['index'] = row_labels(kind, len(d['p']), r)
+            if fmt == 'aif' and not isinstance(d['branch'], str):
+                d['branch'] = 'guess'       # (interleaved marks: known finding C07-F21)
+            if any(isinstance(b, bool) for b in (d['branch'] if not isinstance(d['branch'], str) else [])):
+                d['branch'] = 'guess'
+            d['cols'] = {c: v for c, v in d['cols'].items() if not (fmt == 'aif' and v and isinstance(v[0], float) and any(x != x for x in v))}
+            if spec['temperature'] == 0:
+                spec['temperature'] = 77
+            try:
+                iso = cc.build(spec)
+            except Exception:  # noqa
+                continue
+            o0 = cc.observe(iso)
+            target = 'file' if (fmt != 'csv' or k % 2) else 'string'
+            exp, imp, j, msg = do_roundtrip(fmt, iso, 7500 + k, target)
+            hist[fmt + '/directed-row-labels'] = hist.get(fmt + '/directed-row-labels', 0) + 1
+            rp = {'fmt': fmt, 'spec': c06_js(spec), 'target': target}
+            if exp != 'Ok' or imp != 'Ok':
+                kind2 = 'export-raised' if exp != 'Ok' else 'import-raised'
+                rep.failure('C07:unclassified:%s:row-labels-%s:%s' % (fmt, kind, kind2), '%s, frame with %s row labels %s: %s %s %s' % (fmt, kind, d['index'][:8], kind2, exp if exp != 'Ok' else imp, msg), dict(rp, kind=kind2))
+                continue
+            o1 = cc.observe(j)
+            df = content_diff(o0, o1)
+            if df:
+                tag = classify(fmt, spec, o0, o1, 'content', df, '', exp, imp)
+                if tag.startswith('C07:unclassified') and df[0] in ('rows', 'cell', 'branch', 'columns'):
+                    tag = 'C07:unclassified:%s:row-labels-%s:%s' % (fmt, kind, df[0])
+                rep.failure(tag, '%s round trip of a point isotherm whose frame has %s row labels %s changed %s' % (fmt, kind, d['index'][:8], df), dict(rp, kind='content', detail=str(df)[:300]))
 
 
 # ------------------------------------------------------------------ D. CSV document model (Codec/CsvDoc.v) vs the implementation
@@ -1104,7 +1216,9 @@ def explore(rep, tier, seed):
                        'special values) + directed falsy metadata through the Coq model of the Excel workbook, cell by cell; (f) ~110 generated isotherms + '
                        'directed texts through the Coq model of the AIF block, item by item; (g) for a third of the round trips of every format: import, '
                        'in-place edit of every mutable object the imported copy holds (list / dict valued metadata and material properties, model ranges and '
-                       'parameters, a table cell, a new metadata key), second import of the same text / file: must equal the first import. non-trivial = '
+                       'parameters, a table cell, a new metadata key), second import of the same text / file: must equal the first import; (h) per format ~22 isotherms of every class '
+                       'carrying the metadata keys for which the AIF tag table has a named tag (each alone and all together, typed as declared) and 15 point '
+                       'isotherms whose frame has non-default row labels (gaps, offset, shuffled, negative, text), compared value by value. non-trivial = '
                        'distinct (format, class, typed metadata shape, rows, unit labels) preserved by the round trip + distinct (result kind, length) of (a)')
     rep.cov['input_distribution'] = dict(sorted(hist.items()))
     rep.cov['trusted_base'] += ['oracles: Python float()/repr()/int()/str()/ast.literal_eval; pandas to_csv/read_csv/dtype/astype; xlwt/xlrd; gemmi.cif',
